@@ -19,7 +19,12 @@ Record cred := mkCred { cr_id : id; cr_ok : bool }.
 Inductive hg_reply := HgOk | HgDeny | HgFail.   (* nil / goidc access_denied / plain error *)
 
 (* embedder's ValidateBackAuthFunc, scripted *)
-Inductive ba_reply := BaApprove | BaPending | BaSlowDown | BaDeny | BaFail.
+(* BaNarrow: the embedder's ValidateBackAuthFunc approves AND fixes the grant at that moment - it sets the
+   session's granted scopes to `openid` (the user approved less than was asked for) *)
+Inductive ba_reply := BaApprove | BaPending | BaSlowDown | BaDeny | BaFail | BaNarrow.
+Definition narrowed_scopes : string := "openid".
+(* the verdicts that let the poll go on to the token issue *)
+Definition ba_approves (v : ba_reply) : bool := match v with BaApprove | BaNarrow => true | _ => false end.
 
 Record tresp := mkTResp {
   tr_at : id; tr_rt : id; tr_idt : bool; tr_scope : string; tr_dpop : bool;
@@ -467,7 +472,7 @@ Definition ciba_grant (w : world) (n : nat) (now : Z) (r : treq) : prog out :=
         match validate_binding cfg c (t_bind r) no_opts with
         | Some e => Ret (OErr e)
         | None =>
-          let continue_ :=
+          let continue_ (s : asession) :=
             if negb (validate_resources cfg (a_granted_res s) (t_resources r)) then Ret (OErr EInvalidTarget) else
             if negb (validate_details cfg (a_granted_details s) (t_auth_details r)) then Ret (OErr EInvalidAuthDetails) else
             if negb (contains_all_scopes (a_granted s) (t_scope r)) then Ret (OErr EInvalidScope) else
@@ -492,7 +497,9 @@ Definition ciba_grant (w : world) (n : nat) (now : Z) (r : treq) : prog out :=
               end)
             end in
           match t_ba r with
-          | BaApprove => Do (ADel (a_id s)) (fun rd => match rd with RFail => Ret (OErr EInternalError) | _ => continue_ end)
+          | BaApprove => Do (ADel (a_id s)) (fun rd => match rd with RFail => Ret (OErr EInternalError) | _ => continue_ s end)
+          | BaNarrow => Do (ADel (a_id s)) (fun rd => match rd with RFail => Ret (OErr EInternalError)
+                                                   | _ => continue_ (s <| a_granted := narrowed_scopes |>) end)
           | BaPending => Ret (OErr EAuthPending)
           | BaSlowDown => Ret (OErr ESlowDown)
           | BaDeny => Do (ADel (a_id s)) (fun rd => match rd with RFail => Ret (OErr EInternalError) | _ => Ret (OErr EAccessDenied) end)
